@@ -229,5 +229,5 @@ const postRule = "genuine handshake (configurations as in 'faults', renegotiatio
 
 func TestPropPostHandshake(t *testing.T) {
 	kit.Run(t, kit.Spec[PostCase]{ID: "C32", Name: "post-handshake", Rule: postRule, Gen: genPostCase, Check: checkPost,
-		Quick: 1000, Thorough: 6000, Assumptions: commonAssumptions})
+		Quick: 500, Thorough: 4000, Assumptions: commonAssumptions})
 }
